@@ -236,3 +236,77 @@ def eval_validation(fx, v, depth=0):
     st["created"] = False
     st["unknown"].append("not built by Validation::new: %s" % vstr(v0, 3))
     return [st]
+
+
+# ---- the verified token must be the presented JWT verbatim ---------------------------------------
+REWRITE_NAMES = {"replace", "replacen", "trim", "trim_end", "trim_start", "trim_matches", "to_lowercase", "to_uppercase", "join", "concat", "repeat",
+                 "split_at", "get", "index", "strip_prefix", "strip_suffix", "rsplit_once", "split_once", "truncate", "pop", "push", "push_str", "insert", "remove"}
+
+
+def first_tilde_part(fn, v):
+    """v (peeled, Some-stripped) is the first `~`-separated part of a string parameter, unmodified. Returns the `next` node or None."""
+    root = common._outcome_root(_strip_payload(peel(v)))
+    if not (root.kind == "call" and root.d["term"].get("name") == "next" and root.kids):
+        return None
+    if root.d["bb"] in cfg.reach_strict(fn, root.d["bb"]):
+        return None  # inside a loop: not 'the first'
+    splits = [x for x in walk(root.kids[0]) if x.kind == "call" and x.d["term"].get("name") in ("split", "splitn", "split_terminator")]
+    if len(splits) != 1 or len(splits[0].kids) < 2 or const_value(splits[0].kids[-1]) != "~" or peel(splits[0].kids[0]).kind != "param":
+        return None
+    others = [x for x in walk(root.kids[0]) if x.kind == "call" and x.d["term"].get("name") in ("next", "next_back", "nth", "skip", "rev", "last")]
+    if others:
+        return None
+    return root
+
+
+def _strip_payload(v):
+    g = 0
+    while v.kind in ("variant", "field") and v.kids and g < 8:
+        if v.kind == "field" and v.d.get("adt") not in (common.OPTION, common.RESULT, "std::ops::ControlFlow", None):
+            break
+        v = peel(v.kids[0])
+        g += 1
+    return v
+
+
+def token_verbatim(fx, fn, v, reach, depth=0):
+    """(kind, detail): kind in 'compact' (first ~ part of the input), 'json' (protected.payload.signature of the parsed object),
+    or None with a reason. Follows a helper parameter back to every call site."""
+    p = peel(v)
+    if p.kind == "agg" and p.d["agg"].get("variant") == "Some" and p.kids:
+        p = peel(p.kids[0])
+    nx = first_tilde_part(fn, p)
+    if nx is not None:
+        return ("compact", nx)
+    pcs = common.fmt_pieces(p)
+    if pcs is not None:
+        lits = [(x if k == "lit" else None) for (k, x) in pcs]
+        args = [x for (k, x) in pcs if k == "arg"]
+        names = []
+        for a in args:
+            n = peel(a)
+            names.append(n.d.get("name") if (n.kind == "field" and n.d.get("adt") == "SDJWTJson") else None)
+        if lits == [None, ".", None, ".", None] and names == ["protected", "payload", "signature"]:
+            return ("json", args)
+        return (None, "rebuilt with template %r over %r (expected {protected}.{payload}.{signature})" % (lits, names))
+    q = _strip_payload(p)
+    if q.kind == "param" and q.fn is fn and depth < 3:
+        kinds = []
+        for name in reach:
+            caller = fx.fns[name]
+            cv = vals(caller)
+            for b, t in caller.calls():
+                if t.get("resolved") == fn.name:
+                    n = cv.call_node(b)
+                    i = q.d["idx"] - 1
+                    if i >= len(n.kids):
+                        return (None, "argument missing")
+                    r = token_verbatim(fx, caller, n.kids[i], reach, depth + 1)
+                    if r[0] is None:
+                        return r
+                    kinds.append(r)
+        if kinds:
+            return kinds[0]
+        return (None, "helper is never called")
+    bad = [x.d["term"].get("name") for x in walk(p) if x.kind == "call" and x.d["term"].get("name") in REWRITE_NAMES]
+    return (None, "the stored string is computed (%s): %s" % (", ".join(sorted(set(bad))) or "not the input verbatim", vstr(p, 4)))
